@@ -685,6 +685,8 @@ pub struct Stats {
     pub depth_hist: BTreeMap<usize, u64>,
     pub samples: Vec<Vec<String>>,
     pub digests: Vec<(u64, u64)>,
+    /// wall time of the slowest single case (ms) — the hang watchdog's margin is judged against this
+    pub slowest_case_ms: u64,
 }
 
 impl Stats {
@@ -749,6 +751,7 @@ impl Stats {
             }
         }
         self.digests.extend(o.digests);
+        self.slowest_case_ms = self.slowest_case_ms.max(o.slowest_case_ms);
     }
 }
 
@@ -1034,9 +1037,14 @@ pub fn random_worker<P: Payload>(prop: &str, prof: &Profile, cfg: &StepCfg, seed
                     return Ok(());
                 }
             }
+            let t_case = std::time::Instant::now();
             let run = eval_case::<P>(&ops, prof, cfg, is_first && i % 97 == 0);
             if is_first {
                 let nontrivial = run.nt.iter().any(|(p, _)| *p == prop);
+                let ms = t_case.elapsed().as_millis() as u64;
+                let mut st = stats.borrow_mut();
+                st.slowest_case_ms = st.slowest_case_ms.max(ms);
+                drop(st);
                 stats.borrow_mut().absorb(&run, worker << 32 | i, nontrivial);
             }
             if let Some((_, fs, _)) = &run.fail {
